@@ -75,7 +75,7 @@ def _names(logev):
     m = {}
     for s in logev.get("names", []):
         p = s.split(" ")
-        m[int(p[0])] = (p[1], int(p[-1]))
+        m[int(p[0])] = (p[1], int(p[-1]), p[2] if len(p) > 3 else "")
     return m
 
 
@@ -89,6 +89,11 @@ def classify_det(seg, stage):
         sig["class"] = "panic"
         sig["cmd"] = names.get(e.get("idx"), ("?", 0))[0]
         return sig
+    if (e.get("ev") == "reply" and names.get(e.get("idx"), ("?", 0, ""))[2].startswith("Qt:")) or \
+            (e.get("ev") == "dump" and "Qt:" in str(e.get("k"))):
+        # a command on a HyperLogLog key (in-memory HLL write cache)
+        sig["class"] = "hll-cache"
+        return sig
     if sig["kind"] == "straddle":
         sig["class"] = "wallclock"
         sig["cmd"] = names.get(e.get("idx"), ("dump", 0))[0] if e.get("ev") == "reply" else "dump"
@@ -97,7 +102,7 @@ def classify_det(seg, stage):
     failing = set()
     for x in seg:
         if x.get("ev") == "reply" and str(x.get("r", "")).startswith("e:"):
-            nm, argc = names.get(x["idx"], ("?", 0))
+            nm, argc = names.get(x["idx"], ("?", 0, ""))[:2]
             if nm in BATCHABLE and not (nm == "del" and argc > 2):
                 failing.add(nm)
     if failing:
@@ -110,3 +115,130 @@ def classify_det(seg, stage):
     sig["class"] = "other"
     sig["restart"] = runs[-1].get("restart") if runs else ""
     return sig
+
+
+# ------------------------------------------------------------------ binding self-test
+
+def selftest_binding(ctx, module, cfg, good_file, corruptions, name):
+    """DESIGN 4.5(a): corrupt one logged field / drop one line of an accepted trace; TLC has to
+    reject every corrupted copy.  corruptions: list of (label, fn(events) -> events or None).
+    Returns {label: rejected?}.  A copy that is still accepted makes the check inconclusive
+    (the binding would be vacuous), never a verdict on the code."""
+    events = V.read_ndjson(good_file)
+    res = {}
+    for label, fn in corruptions:
+        ev2 = fn([dict(e) for e in events])
+        if ev2 is None:
+            continue
+        p = os.path.join(os.path.dirname(good_file), "selftest-%s-%s.ndjson" % (name, label))
+        V.write_ndjson(p, ev2)
+        consumed, mism, r = V.validate_seq_trace(ctx, module, cfg, p, tag="selftest-%s-%s" % (name, label))
+        res[label] = bool(mism) or not consumed
+    bad = [k for k, v in res.items() if not v]
+    if bad:
+        raise V.Inconclusive("binding self-test: corrupted trace(s) %s were accepted by %s" % (bad, module))
+    return res
+
+
+def det_corruptions():
+    def second_run_idx(ev, kind):
+        runs = 0
+        for i, e in enumerate(ev):
+            if e.get("ev") == "log":
+                runs = 0
+            if e.get("ev") == "run":
+                runs += 1
+            if runs >= 2 and e.get("ev") == kind:
+                return i
+        return None
+
+    def reply_changed(ev):
+        i = second_run_idx(ev, "reply")
+        if i is None:
+            return None
+        ev[i]["r"] = ev[i]["r"] + "x"
+        return ev
+
+    def dump_changed(ev):
+        i = second_run_idx(ev, "dump")
+        if i is None:
+            return None
+        ev[i]["v"] = ev[i]["v"] + "0"
+        return ev
+
+    def dump_dropped(ev):
+        i = second_run_idx(ev, "dump")
+        if i is None:
+            return None
+        del ev[i]
+        return ev
+
+    def panic_inserted(ev):
+        i = second_run_idx(ev, "reply")
+        if i is None:
+            return None
+        ev.insert(i, {"ev": "panic", "idx": 0, "msg": "selftest"})
+        return ev
+    return [("reply-changed", reply_changed), ("dump-value-changed", dump_changed), ("dump-line-dropped", dump_dropped),
+            ("panic-inserted", panic_inserted)]
+
+
+def input_corruptions():
+    def first(ev, pred):
+        for i, e in enumerate(ev):
+            if e.get("ev") == "cmd" and pred(e):
+                return i
+        return None
+
+    def err_changed(ev):
+        i = first(ev, lambda e: e["cls"] == "err")
+        if i is None:
+            return None
+        ev[i]["dg"] = "ffff" + ev[i]["dg"][4:]
+        for j in range(i + 1, len(ev)):       # keep the chain consistent: only this step is wrong
+            if ev[j].get("ev") == "cmd":
+                ev[j]["pre"] = ev[i]["dg"]
+                break
+        return ev
+
+    def line_dropped(ev):
+        i = first(ev, lambda e: e["cls"] == "ok" and e["nchg"] > 0 and e["seq"] > 5)
+        if i is None:
+            return None
+        del ev[i]
+        return ev
+
+    def foreign_added(ev):
+        i = first(ev, lambda e: e["cls"] == "ok" and e["rw"] == "w" and e["seq"] > 5)
+        if i is None:
+            return None
+        ev[i]["foreign"] = ["00ff"]
+        return ev
+
+    def died_inserted(ev):
+        i = first(ev, lambda e: e["seq"] > 5)
+        ev.insert(i, {"ev": "died", "seq": 0, "path": "client", "name": "x", "mut": "x", "args": [], "cause": "selftest",
+                      "prev": [], "trig": ""})
+        return ev
+
+    def probe_reply(ev):
+        i = first(ev, lambda e: e.get("probe") and e["cls"] == "ok")
+        if i is None:
+            return None
+        ev[i]["r"] = "i:7"
+        return ev
+    return [("err-store-changed", err_changed), ("line-dropped", line_dropped), ("foreign-key", foreign_added),
+            ("died-inserted", died_inserted), ("probe-reply", probe_reply)]
+
+
+def model_run(ctx, module, cfg, tag, timeout, workers=None, coverage=False, heap="4g"):
+    """Exhaustive TLC run of a design model; a run that ends without any verdict (JVM killed,
+    machine overloaded) is retried once."""
+    r = None
+    for attempt in (1, 2):
+        r = V.tlc(ctx, module, cfg, timeout=timeout, workers=workers, tag="%s-%d" % (tag, attempt), coverage=coverage, heap=heap)
+        if r.ok or r.violated or r.timed_out:
+            return r
+        ctx.log("%s/%s ended without a verdict (attempt %d): %s" % (module, cfg, attempt, (r.error or r.out[-200:]).strip()[:200]))
+    r.timed_out = True      # environmental: require_model_ok counts it as not run
+    return r
